@@ -97,13 +97,6 @@ impl UnixTerminal {
         let mut poll = Poll::new();
         poll.register(PollEvent::new(&tty).with_readable(true))?;
 
-        // switching terminal into a raw mode
-        // [Entering Raw Mode](https://viewsourcecode.org/snaptoken/kilo/02.enteringRawMode.html)
-        let termios_saved = rustix::termios::tcgetattr(&tty)?;
-        let mut termios = termios_saved.clone();
-        termios.make_raw();
-        rustix::termios::tcsetattr(&tty, rustix::termios::OptionalActions::Flush, &termios)?;
-
         // signal delivery
         let (signal_read, signal_write) = UnixStream::pair()?;
         let signal_delivery = SignalDelivery::with_pipe(
@@ -127,6 +120,15 @@ impl UnixTerminal {
             }
         });
         poll.register(PollEvent::new(&waker_read).with_readable(true))?;
+
+        // switching terminal into a raw mode
+        // [Entering Raw Mode](https://viewsourcecode.org/snaptoken/kilo/02.enteringRawMode.html)
+        // NOTE: this is the last step that can fail before the terminal object exists, from
+        //       here on an error drops the object, which restores the saved settings
+        let termios_saved = rustix::termios::tcgetattr(&tty)?;
+        let mut termios = termios_saved.clone();
+        termios.make_raw();
+        rustix::termios::tcsetattr(&tty, rustix::termios::OptionalActions::Flush, &termios)?;
 
         let capabilities = TerminalCaps::default();
         let mut term = Self {
@@ -189,6 +191,13 @@ impl UnixTerminal {
         })
     }
 
+    /// Whether a wake event is waiting in the events queue
+    fn wake_queued(&self) -> bool {
+        self.events_queue
+            .iter()
+            .any(|event| matches!(event, TerminalEvent::Wake))
+    }
+
     /// Close all descriptors free all the resources
     fn dispose(&mut self) -> Result<(), Error> {
         self.frames_drop();
@@ -226,10 +235,13 @@ impl UnixTerminal {
         self.signal_delivery.handle().close();
         self.signal_delivery.pending().for_each(drop);
 
-        // wait for device attributes report or error
+        // wait for device attributes report or error, but not forever: termination signals
+        // are not seen any more and other events may keep coming
+        let deadline = Instant::now() + Duration::from_secs(3);
         loop {
             match self.poll(Some(Duration::from_secs(1))) {
                 Err(_) | Ok(Some(TerminalEvent::DeviceAttrs(_)) | None) => break,
+                _ if Instant::now() >= deadline => break,
                 _ => {}
             }
         }
@@ -414,11 +426,11 @@ impl Terminal for UnixTerminal {
                 }
                 None => None,
             };
-            // never sleep while there is an event to deliver
-            let delay = if self.events_queue.is_empty() {
-                delay
-            } else {
+            // never sleep while a wake event waits to be delivered
+            let delay = if self.wake_queued() {
                 Some(Duration::new(0, 0))
+            } else {
+                delay
             };
 
             let tty_write = PollEvent::new(&self.tty).with_writable(!self.write_queue.is_empty());
@@ -442,6 +454,7 @@ impl Terminal for UnixTerminal {
             };
 
             // process pending output
+            let mut sent_some = false;
             if tty.is_writable() {
                 let tee = self.tee.as_mut();
                 // bytes accepted by the tty are consumed even if copying them to the tee fails,
@@ -455,6 +468,7 @@ impl Terminal for UnixTerminal {
                     Ok::<_, Error>(size)
                 })?;
                 self.stats.send += send;
+                sent_some = send > 0;
                 tee_result?;
             }
 
@@ -522,9 +536,11 @@ impl Terminal for UnixTerminal {
             // indicate that first loop was executed
             first_loop = false;
 
-            // an event is ready and the tty takes no more output right now, deliver the
-            // event instead of waiting for the other side to drain the output
-            if !self.events_queue.is_empty() && !tty.is_writable() {
+            // output is flushed before events are returned, except for wake requests: when
+            // a wake event is queued and the tty took no output in this round (not writable,
+            // or writable but the write was refused) return instead of waiting for the other
+            // side to drain the output
+            if !sent_some && self.wake_queued() {
                 break;
             }
         }
